@@ -5,6 +5,7 @@ package extendeddaemonset
 import (
 	corev1 "k8s.io/api/core/v1"
 	metav1 "k8s.io/apimachinery/pkg/apis/meta/v1"
+	ksmetric "k8s.io/kube-state-metrics/v2/pkg/metric"
 
 	datadoghqv1alpha1 "github.com/DataDog/extendeddaemonset/api/v1alpha1"
 	"github.com/DataDog/extendeddaemonset/zzverif/nondet"
@@ -66,9 +67,16 @@ func ZZ_C20_edsFamilies() {
 		extendeddaemonsetStatusRollingUpdatePaused:      b2f(st.State == datadoghqv1alpha1.ExtendedDaemonSetStatusStateRollingUpdatePaused),
 		extendeddaemonsetStatusRolloutFrozen:            b2f(st.State == datadoghqv1alpha1.ExtendedDaemonSetStatusStateRolloutFrozen),
 	}
+	// as the metrics store does: every family of the object is generated first, the series are
+	// read (serialised) afterwards — a generator must not disturb what an earlier one returned
+	gens := generateMetricFamilies()
+	fams := make([]*ksmetric.Family, len(gens))
+	for i, f := range gens {
+		fams[i] = f.GenerateFunc(ds)
+	}
 	seen := 0
-	for _, f := range generateMetricFamilies() {
-		fam := f.GenerateFunc(ds)
+	for i, f := range gens {
+		fam := fams[i]
 		w, known := want[f.Name]
 		nondet.Assert("C20.eds.known-family", known)
 		if !known {
